@@ -6,7 +6,8 @@ C06, C07, C10): the generated file is rebuilt from /repo's current source on eve
 Supported subset (anything else fails loudly; the check then reports that the tie broke):
   statements  docstring | Name = expr | out[..., i] = expr (collected, in order) | out = np.empty(...) (ignored)
               | return expr | return out
-  expr        Name | int / float literal (exact rational) | + - * / | ** non-negative int literal | unary -
+  slices      selected `name = expr` assignments of a larger function, in order (the value is the last one)
+  expr        Name | int / float literal (exact rational) | np.pi | + - * / | ** non-negative int literal | unary -
               | np.sqrt/tanh/sinh/exp/log/cos/sin(expr) | np.where(a > b, x, y) | atleast_1d(x) (identity)
               | call of another translated function | one whitelisted attribute (air.vonkarman_constant)
 """
@@ -35,6 +36,12 @@ TARGETS = [
     ("wavephysics/roughness.py", "drag_coefficient_wu", ["speed"], {}),
     ("wavephysics/roughness.py", "roughness_wu", ["speed", "elevation", "kappa"], {"air.vonkarman_constant": "kappa"}),
 ]
+# statement slices of larger functions: (file, function, Lean name, argument names, assigned names to translate in order;
+# the value is the last one; a name may carry "@key" when it is assigned as dataset["key"] / a dict entry)
+SLICES = [
+    ("wavephysics/windestimate.py", "friction_velocity", "friction_velocity_estimate",
+     ["e", "grav", "directional_spreading_constant", "beta"], ["emean", "friction_velocity_estimate"]),
+]
 FUNCS = {"sqrt": "Real.sqrt", "tanh": "Real.tanh", "sinh": "Real.sinh", "exp": "Real.exp", "log": "Real.log",
          "cos": "Real.cos", "sin": "Real.sin"}
 
@@ -59,6 +66,8 @@ class Tr:
             return e.id
         if isinstance(e, ast.Constant) and isinstance(e.value, (int, float)) and not isinstance(e.value, bool):
             return lit(e.value)
+        if isinstance(e, ast.Attribute) and ast.unparse(e) == "np.pi":
+            return "Real.pi"
         if isinstance(e, (ast.Attribute, ast.Subscript)):
             key = ast.unparse(e).replace("'", '"')
             if key in self.attrs:
@@ -145,6 +154,7 @@ def translate():
            "import Mathlib.Analysis.SpecialFunctions.Trigonometric.Deriv",
            "import Mathlib.Analysis.SpecialFunctions.Sqrt",
            "import Mathlib.Analysis.SpecialFunctions.Log.Basic",
+           "import Mathlib.Analysis.SpecialFunctions.Trigonometric.Basic",
            "", "namespace Osu.GenArith", ""]
     known = {}
     cache = {}
@@ -160,6 +170,24 @@ def translate():
         out.append(body)
         out.append("")
         known[name] = ([a.arg for a in fn.args.args], args)
+    for rel, name, lean_name, args, wanted in SLICES:
+        if rel not in cache:
+            cache[rel] = ast.parse((REPO / rel).read_text())
+        fn = next((n for n in cache[rel].body if isinstance(n, ast.FunctionDef) and n.name == name), None)
+        if fn is None:
+            raise Unsupported(f"{name} not found in {rel}")
+        tr = Tr({}, known)
+        lets = []
+        for w in wanted:
+            hits = [st for st in ast.walk(fn) if isinstance(st, ast.Assign) and len(st.targets) == 1
+                    and isinstance(st.targets[0], ast.Name) and st.targets[0].id == w]
+            if len(hits) != 1:
+                raise Unsupported(f"{name}: expected exactly one assignment to {w}, found {len(hits)}")
+            lets.append((w, tr.expr(hits[0].value)))
+        out.append(f"/-- `{rel}: {name}`, the assignments to {', '.join(wanted)} -/")
+        out.append(f"noncomputable def {lean_name} " + " ".join(f"({a} : ℝ)" for a in args) + " : ℝ :=")
+        out.append("\n".join([f"  let {w} := {ex}" for w, ex in lets[:-1]] + ["  " + lets[-1][1]]))
+        out.append("")
     out.append("end Osu.GenArith")
     return "\n".join(out) + "\n"
 
